@@ -117,6 +117,10 @@ pub struct ThreadSpec {
     /// operation is a scheduling point with probability 1/bb (0 = off; no effect in the ordinary build)
     #[serde(default)]
     pub bb: u32,
+    /// every worker thread owns a thread-local object, set up before the thread's first library call,
+    /// whose destructor signs, verifies, encrypts and decrypts once more while the thread exits
+    #[serde(default)]
+    pub exit_probe: bool,
 }
 
 #[derive(Clone)]
@@ -183,6 +187,56 @@ fn res<T>(o: &Out<T>, ok: impl FnOnce(&T) -> String) -> String {
         Out::Err(e) => format!("err:{}", e.tag()),
         Out::Panic(p) => format!("panic:{p}"),
     }
+}
+
+/// An application object that lives in a thread-local slot of a worker thread and uses the library one
+/// last time from its destructor, i.e. while the thread's other thread-local state is being torn down
+/// (objects registered later - the library's own, if it has any - are already gone by then).
+struct ExitProbe {
+    bk: Bk,
+    keys: Keys,
+    t: usize,
+    seed: u64,
+    out: Arc<Mutex<Vec<(usize, String)>>>,
+}
+
+impl Drop for ExitProbe {
+    fn drop(&mut self) {
+        let be = backend(self.bk);
+        let aad: &[u8] = if self.bk.has_aad() { b"c17" } else { b"" };
+        let mut rec = |what: &str, r: String| {
+            if let Ok(mut g) = self.out.lock() {
+                g.push((self.t, format!("{what} -> {}", &r[..r.len().min(60)])));
+            }
+        };
+        rngsvc::begin(&RngSpec::Prng { seed: mix(self.seed, "exit-probe", self.t as u64) });
+        let msg = Claims::Raw(b"at thread exit".to_vec());
+        let tok = be.seal(Purp::Local, &self.keys.local, &msg, &Foot::Unit, aad, None, false);
+        rec("encrypt", res(&tok, |_| String::new()));
+        if let Out::Ok(t) = &tok {
+            rec("decrypt", res(&be.unseal(Purp::Local, &self.keys.local, t, PayloadKind::Raw, FootKind::Unit, aad, &VSpec::None, false), |_| String::new()));
+        }
+        if self.bk != Bk::V1 {
+            let sig = be.seal(Purp::Public, &self.keys.secret, &msg, &Foot::Unit, aad, None, false);
+            rec("sign", res(&sig, |_| String::new()));
+            if let Out::Ok(t) = &sig {
+                rec("verify", res(&be.unseal(Purp::Public, &self.keys.public, t, PayloadKind::Raw, FootKind::Unit, aad, &VSpec::None, false), |_| String::new()));
+            }
+            let sealed = be.seal_key(&self.keys.local, &self.keys.pke_public);
+            rec("seal-key", res(&sealed, |_| String::new()));
+            if let Out::Ok(bl) = &sealed {
+                rec("unseal-key", res(&be.unseal_key(bl, &self.keys.pke_secret), |_| String::new()));
+            }
+        }
+        let w = be.wrap_pie(Kind::Local, &self.keys.local, &self.keys.local);
+        rec("wrap", res(&w, |_| String::new()));
+        rec("id", res(&be.key_id(Kind::Local, &self.keys.local), |_| String::new()));
+        rngsvc::end();
+    }
+}
+
+thread_local! {
+    static EXIT_PROBE: std::cell::RefCell<Option<ExitProbe>> = const { std::cell::RefCell::new(None) };
 }
 
 /// Execute one operation of thread `t` (index `i` in its script). Pure function of
@@ -557,6 +611,7 @@ pub fn run_threads(w: &mut World, spec: &ThreadSpec) {
     let yields_total = Arc::new(std::sync::atomic::AtomicU64::new(0));
     let mail = Arc::new(Mutex::new(vec![Vec::<KeyH>::new(); n]));
     let results: Arc<Mutex<Vec<Vec<String>>>> = Arc::new(Mutex::new(vec![Vec::new(); n]));
+    let exit_out: Arc<Mutex<Vec<(usize, String)>>> = Arc::new(Mutex::new(Vec::new()));
     let mut handles = Vec::new();
     for (t, script) in spec.scripts.iter().enumerate() {
         let (baton, mail, results, shared, script) = (baton.clone(), mail.clone(), results.clone(), shared.clone(), script.clone());
@@ -564,8 +619,23 @@ pub fn run_threads(w: &mut World, spec: &ThreadSpec) {
         let seed = spec.seed;
         let bb = spec.bb;
         let yields_total = yields_total.clone();
+        let exit_out = exit_out.clone();
+        let exit_probe = spec.exit_probe;
         handles.push(std::thread::spawn(move || {
             let mut st = ThreadState::default();
+            if exit_probe {
+                // the harness's own thread-local state first (destroyed last), then the probe, and only
+                // after that the first library call of this thread
+                crate::backend::touch_tls();
+                crate::clock::touch_tls();
+                crate::payloads::touch_tls();
+                crate::ffiyield::touch_tls();
+                rngsvc::touch_tls();
+                if let Some(k) = keys.as_ref() {
+                    let probe = ExitProbe { bk, keys: k.clone(), t, seed, out: exit_out };
+                    EXIT_PROBE.with(|p| *p.borrow_mut() = Some(probe));
+                }
+            }
             if fine {
                 crate::ffiyield::set_hook(Some((Arc::new(BatonYielder(baton.clone())), t)));
                 crate::ffiyield::take_yields();
@@ -703,6 +773,20 @@ pub fn run_threads(w: &mut World, spec: &ThreadSpec) {
     }
     // leftover hand-offs are dropped here (a third thread)
     drop(std::mem::take(&mut *mail.lock().unwrap()));
+    // what the thread-local objects of the workers saw when they used the library once more while their
+    // thread was exiting
+    if spec.exit_probe {
+        let seen = std::mem::take(&mut *exit_out.lock().unwrap_or_else(|e| e.into_inner()));
+        w.stats.add("op:thread-exit-probe-operations", seen.len() as u64);
+        let mut bad: Vec<String> = seen.iter().filter(|(_, r)| !r.contains("-> ok:")).map(|(t, r)| format!("thread {t}: {r}")).collect();
+        bad.sort();
+        if let Some(first) = bad.first() {
+            w.violate("C17", "operation-failed-during-thread-exit", bk, "thread-exit", "", format!("{} operation(s) made from a thread-local destructor while the thread exits did not succeed, e.g. {first}", bad.len()));
+        }
+        if seen.is_empty() {
+            w.stats.bump("sched:thread-exit-probe-did-not-run");
+        }
+    }
 
     // ---- judgement
     let got = results.lock().unwrap().clone();
